@@ -127,7 +127,7 @@ int32_t getAsnLength32(const unsigned char **pp, psSizeL_t size, psSize32_t *len
         switch (l)
         {
         case 4:
-            l = *c << 24; c++;
+            l = (uint32_t) *c << 24; c++;
             l |= *c << 16; c++;
             l |= *c << 8; c++;
             l |= *c; c++;
